@@ -296,6 +296,65 @@ fn wrop_from_json(j: &J) -> Result<WrOp, String> {
     })
 }
 
+/// C06, volume family: `count` responses with a body of `body` bytes each through one connection,
+/// written in pieces of at most `chunk` bytes. Oracles: every write that the stream accepts is
+/// reported Ok, pending_write() exactly while bytes are unsent, the byte stream equals the
+/// concatenation of the reference serialisations (compared on the fly), nothing lost at the end.
+fn exec_write_volume(case: &J, st: &mut Stats) -> Result<RunOut, String> {
+    let body_len = case.req_usize("body")?;
+    let count = case.req_usize("count")?;
+    let chunk = case.req_usize("chunk")?.max(1);
+    let body = fill_body(body_len, 3);
+    let mut spec = RespSpec::new(1, 200);
+    spec.set_body(body.clone());
+    let exp = std::rc::Rc::new(serialize_response(&spec));
+    let mut conn = Conn::new(Vec::new(), None);
+    conn.sh.borrow_mut().verify = Some(exp.clone());
+    let viol = |class: &str, step: usize, detail: String| {
+        Ok(RunOut { violation: Some(Violation::new(&format!("C06:{}", class), step, detail)), nontrivial: true, sig: 1, trace_hash: 1 })
+    };
+    for i in 0..count {
+        st.steps += 1;
+        let mut r = Response::new(version_of(1), status_of(200));
+        r.set_body(Body::new(body.clone()));
+        if catch_unwind(AssertUnwindSafe(|| conn.c.enqueue_response(r))).is_err() {
+            return viol("panic", i, "enqueue_response panicked".into());
+        }
+        let mut writes = 0;
+        loop {
+            writes += 1;
+            if writes > 1000 {
+                return viol("no-progress", i, format!("response #{}: 1000 writes of up to {} bytes did not finish {} bytes", i, chunk, exp.len()));
+            }
+            let res = conn.try_write(WrOp::Accept(chunk));
+            st.lib_calls += 1;
+            if res != CallRes::Ok {
+                let total = conn.sh.borrow().verify_total;
+                return viol("ok-expected", i, format!("response #{} ({} bytes through this connection so far): the stream accepted the bytes but try_write returned {:?}", i, total, res));
+            }
+            let sent = conn.sh.borrow().verify_total;
+            let want_pending = sent < (i as u64 + 1) * exp.len() as u64;
+            match catch_unwind(AssertUnwindSafe(|| conn.c.pending_write())) {
+                Ok(p) if p == want_pending => {}
+                Ok(p) => return viol("pending-flag", i, format!("pending_write() = {} after {} of {} bytes", p, sent, (i as u64 + 1) * exp.len() as u64)),
+                Err(_) => return viol("panic", i, "pending_write panicked".into()),
+            }
+            if !want_pending {
+                break;
+            }
+        }
+        let s = conn.sh.borrow();
+        if let Some(off) = s.verify_bad {
+            return viol("not-a-prefix", i, format!("the byte at offset {} of the connection's output differs from the queued responses", off));
+        }
+        if s.verify_total != (i as u64 + 1) * exp.len() as u64 {
+            return viol("not-a-prefix", i, format!("{} bytes written after {} responses of {} bytes", s.verify_total, i + 1, exp.len()));
+        }
+    }
+    st.probe("more_than_4_GiB_through_one_connection");
+    Ok(RunOut { violation: None, nontrivial: true, sig: count as u64, trace_hash: count as u64 ^ (chunk as u64) << 8 })
+}
+
 // =========================================================================== C06
 
 #[derive(Clone, Debug, PartialEq, Eq)]
@@ -383,7 +442,7 @@ impl Prop for C06 {
             vec!["stream (SimStream write side: every write call's behaviour is scripted)"],
         )
     }
-    fn gen_inner(&self, rng: &mut Rng, _tier: Tier, _index: u64) -> J {
+    fn gen_inner(&self, rng: &mut Rng, _tier: Tier, index: u64) -> J {
         let nsteps = rng.range(2, 60);
         let mut steps = Vec::new();
         let mut enq = 0;
@@ -392,6 +451,16 @@ impl Prop for C06 {
         let burst = rng.chance(1, 3);
         // a third of the runs also read between writes (a duplex owner)
         let duplex = rng.chance(1, 3);
+        if !cfg!(miri) && index % 1_000_000 == 499_999 {
+            // volume: more than 4 GiB through ONE connection (130..140 responses of 32 MiB), so that a
+            // 32-bit count of bytes would wrap; the sink compares on the fly and stores nothing
+            return json::obj(vec![
+                ("engine", json::s("A-write-volume")),
+                ("body", json::u(32 << 20)),
+                ("count", json::u(rng.range(130, 140))),
+                ("chunk", json::u(*rng.pick(&[4usize << 20, 8 << 20, (16 << 20) + 1, 40 << 20]))),
+            ]);
+        }
         if !cfg!(miri) && rng.chance(1, 2500) {
             // mega: a response body of 1..3 MiB (beyond any "large body" threshold someone might pick)
             // pushed out through writes of tens to hundreds of KiB, with a small response behind it
@@ -471,6 +540,9 @@ impl Prop for C06 {
         WrCase { steps }.to_json()
     }
     fn exec_inner(&self, case: &J, st: &mut Stats) -> Result<RunOut, String> {
+        if case.get("engine").and_then(|x| x.str()) == Some("A-write-volume") {
+            return exec_write_volume(case, st);
+        }
         let case = WrCase::from_json(case)?;
         let mut input = Vec::new();
         if case.steps.iter().any(|s| matches!(s, WStep::Rd(_))) {
